@@ -321,6 +321,7 @@ func (fr *Frame) enterLoop(b *ssa.BasicBlock, st *State, reach string, entryPhi 
 		// execution or the objects listed in its modifies clause. The loop may
 		// therefore change nothing else: objects that existed on entry keep their
 		// contents across the cut.
+		vc.bumpNext(st)
 		for _, k := range l.mods.keys() {
 			vc.registerKey(k)
 			if strings.HasPrefix(k, "G|") || strings.HasPrefix(k, "Gh|") {
@@ -329,7 +330,6 @@ func (fr *Frame) enterLoop(b *ssa.BasicBlock, st *State, reach string, entryPhi 
 				vc.havocHeap(st, k, vc.frame.next0, vc.frame.refs)
 			}
 		}
-		vc.bumpNext(st)
 	} else {
 		vc.havocMods(st, l.mods)
 	}
